@@ -1,10 +1,10 @@
-\* script generation, scenario group "mixed" (constants equal TC_mixed.cfg's; the peer and the faults are switched on)
+\* script generation, scenario group "tight" (constants equal TC_tight.cfg's; the peer and the faults are switched on)
 CONSTANTS
-  Ops <- G_mixed_Ops
-  Kind <- G_mixed_Kind
-  BatchN <- G_mixed_N
-  MaxQueue = 3
-  BufCap = 2
+  Ops <- G_tight_Ops
+  Kind <- G_tight_Kind
+  BatchN <- G_tight_N
+  MaxQueue = 1
+  BufCap = 1
   SubIds = {1, 2}
   Dev = {}
   PeerMenu = {"resp", "notif", "close", "mnotif", "array", "foreign"}
@@ -15,7 +15,7 @@ CONSTANTS
   MaxArr = 3
   ArrMenu = {"resp", "notif", "close"}
   ScriptLen = 18
-  HoldGate = 30
+  HoldGate = 6
   FaultGate = 40
 INIT GInit
 NEXT GNext
